@@ -1049,8 +1049,6 @@ def classify(h, pt, kind, detail=None):
                       for t in range(len(pre)))
             if hit and any(ops[i][0] == 2 and ops[i][1] == 4 and not ops[i][3] and not ops[i][5] for i in range(nxt)):
                 return "D20_app_sequence_reset_uncounted"
-            if ops[nxt][1] == 6:
-                return "D22_peer_logout_uncounted"
             if ops[nxt][1] == 4 and (ops[nxt][2] != live_before(h, nxt)[0] or ops[nxt][4] != ops[nxt][2] + 1):
                 return "D11_sequence_reset_stored_lag"
     return None
@@ -1199,8 +1197,9 @@ CURATED = [
     (1, LOGON_I + [[2, 4, 5, 0, 7, 0], [2, 0, 0, 0, 1, 0], [2, 0, 0, 0, 2, 0], [2, 0, 0, 0, 3, 0]]),
     (2, LOGON_A + [[2, 0, 0, 0, 1, 0], [2, 0, 2, 1, 1, 0], [2, 0, 0, 0, 2, 0]]),
     (2, LOGON_A + [[2, 4, 2, 0, 3, 0], [3, 0], [0], [1, 5, 2, 0, 0, 0], [1, 6, 3, 0, 0, 0]]),
-    # D22: peer Logout, then restart / reconnect
+    # peer Logout (counted and journaled since the repair of D22), then restart / reconnect; Logout with a gap
     (2, LOGON_A + [[1, 0, 2, 0, 1, 0], [1, 6, 3, 0, 0, 0]]),
+    (2, LOGON_A + [[1, 0, 2, 0, 1, 0], [1, 6, 5, 0, 0, 0]]),
     (1, LOGON_I + [[2, 0, 0, 0, 1, 0], [1, 6, 2, 0, 0, 0], [0], [2, 5, 0, 0, 0, 0], [1, 5, 3, 0, 0, 0]]),
     # own Logout, restart inside the history, too-low frame, refused sends
     (2, LOGON_A + [[2, 0, 0, 0, 1, 0], [3, 1], [4], [0], [1, 5, 2, 0, 0, 0], [2, 0, 0, 0, 2, 0]]),
@@ -1222,9 +1221,10 @@ WITNESSES = {
                                  and res["restored"] == [4, 4]),
     "C09_app_seqreset_refuted": (2, LOGON_A + [[2, 4, 2, 0, 5, 0]], ["g", 2, -1, False],
                                  lambda h, res: h["steps"][2][3] == 2 and h["steps"][2][5] == 2 and res["restored"][1] == 3),
-    "C09_peer_logout_uncounted_refuted": (2, LOGON_A + [[1, 6, 2, 0, 0, 0]], ["g", 2, -1, False],
-                                          lambda h, res: h["steps"][2][2] == 2 and res["restored"][0] == 2
-                                          and any(f[0] == 3 for f in res["wire"]) and res["steps"][1][1] == 12),
+    "C09_peer_logout_counted": (2, LOGON_A + [[1, 6, 2, 0, 0, 0]], ["g", 2, -1, False],
+                                lambda h, res: h["steps"][2][2] == 3 and h["steps"][2][4] == 2 and h["steps"][2][1] == 0
+                                and res["restored"][0] == 3 and not any(f[0] == 3 for f in res["wire"])
+                                and res["steps"][1][1] == 17),
     "C09_crash_before_journal_refuted": (2, LOGON_A + [[2, 0, 0, 0, 9, 0]], ["c", 2, 9, True],
                                          lambda h, res: res["restored"][1] == 2 and [0, 2, 0, 9, 0] in res["old_wire"]
                                          and [5, 2, 0, 0, 0] in res["wire"]),
